@@ -28,6 +28,42 @@ META = 'usim._primitives.concurrent_exception.MetaConcurrent'
 CONCURRENT = 'usim._primitives.concurrent_exception.Concurrent'
 
 
+def check_children_fixed(check, an: Analysis, rule: str):
+    """the class of a Concurrent is chosen from its children when it is made: the children
+    are set by its constructor and never again, anywhere in the package (a failure whose
+    children change afterwards keeps a class that no longer describes them)"""
+    writers = []
+    for fn in an.p.functions.values():
+        if isinstance(fn.node, ast.Lambda):
+            continue
+        for node in rules._walk_own(fn.node):
+            targets = []
+            if isinstance(node, ast.Assign):
+                targets = node.targets
+            elif isinstance(node, (ast.AugAssign, ast.AnnAssign)):
+                targets = [node.target]
+            elif isinstance(node, ast.Delete):
+                targets = node.targets
+            for target in targets:
+                for sub in ast.walk(target):
+                    if isinstance(sub, ast.Attribute) and sub.attr == 'children' and \
+                            isinstance(sub.ctx, (ast.Store, ast.Del)):
+                        writers.append((fn, node))
+            if isinstance(node, ast.Call) and isinstance(node.func, ast.Name) and \
+                    node.func.id == 'setattr' and len(node.args) >= 2 and isinstance(
+                        node.args[1], ast.Constant) and node.args[1].value == 'children':
+                writers.append((fn, node))
+    foreign = [(fn, node) for fn, node in writers
+               if not (fn.cls is not None and fn.cls.qn == CONCURRENT
+                       and fn.name in ('__init__', '__new__'))]
+    check.instance(rule, 'Concurrent.children:set-once', bool(writers) and not foreign,
+                   '%s:%d' % (foreign[0][0].module.relpath, foreign[0][1].lineno)
+                   if foreign else where_fn(an.method(CONCURRENT, '__init__')),
+                   '`children` is written by the constructor of Concurrent only (%d writers '
+                   'in the package%s)' % (len(writers), '' if not foreign else
+                                          '; also by %s' % short(foreign[0][0].qn)))
+
+
 def run(check, an: Analysis):
     check.rule('B', 'matching predicate equals the documented formula (truth-table over '
                     'normal forms); path table of __subclasscheck__; __instancecheck__')
@@ -239,6 +275,20 @@ def run(check, an: Analysis):
     check.instance('N', 'Concurrent.__new__:by-child-types', ok and n_pick > 0,
                    where_fn(new.fn), 'Concurrent(*children) is of type cls[tuple(type(child) '
                    'for child in children)] (%d specialisations on paths)' % n_pick)
+    check_children_fixed(check, an, 'N')
+    # one table per template, for the whole process: the table `_get_specialisation` looks
+    # up and stores into is an attribute bound in the body of the template class -- not a
+    # property or a lookup that may answer with another table for another thread or run
+    table = an.cls(CONCURRENT).attrs.get('__specialisations__')
+    computed = an.p.find_method(META, '__specialisations__') or \
+        an.p.find_method(CONCURRENT, '__specialisations__')
+    check.instance('N', 'Concurrent.__specialisations__:one-table',
+                   isinstance(table, ast.Call) and computed is None,
+                   where_fn(an.method(CONCURRENT, '__init__')),
+                   'the cache of specialisations is one object made in the class body of '
+                   'the template (%s), not computed on access (%s)' % (
+                       ast.unparse(table) if table is not None else None,
+                       computed is not None))
     getitem = an.callee(META, '__getitem__')
     rets = {}
     me_n, item_n = [a.arg for a in getitem.fn.node.args.args[:2]]
